@@ -1,28 +1,9 @@
-(* BuilderInv.v -- reusable proof library (DESIGN.md appendix); closed under the global context *)
+(* BuilderInv.v -- the invariant behind CodeBuilder._add_statement's sparse dependency
+   graph: every pair of conflicting statements is ordered by the transitive closure of
+   the recorded edges (DESIGN.md appendix B), over model/BuilderCore.v. *)
 From Coq Require Import List Arith Lia Relations.
 Import ListNotations.
-
-Definition var := nat.
-Record st := { R : list var; W : list var }.
-Record bs := { writer : var -> option nat; readers : var -> list nat; out : list (list nat) }.
-
-Definition memb (v : var) (l : list var) : bool := if in_dec Nat.eq_dec v l then true else false.
-Lemma memb_true v l : memb v l = true <-> In v l.
-Proof. unfold memb. destruct (in_dec _ _ _); split; intros; auto; discriminate. Qed.
-Lemma memb_false v l : memb v l = false <-> ~ In v l.
-Proof. unfold memb. destruct (in_dec _ _ _); split; intros; auto; try discriminate; contradiction. Qed.
-
-Definition wdeps (b : bs) (vs : list var) : list nat :=
-  flat_map (fun v => match writer b v with Some w => [w] | None => [] end) vs.
-
-Definition add (b : bs) (s : st) : bs :=
-  let n := length (out b) in
-  {| writer := fun v => if memb v (W s) then Some n else writer b v;
-     readers := fun v => if memb v (W s) then [] else if memb v (R s) then n :: readers b v else readers b v;
-     out := out b ++ [wdeps b (R s ++ W s) ++ flat_map (readers b) (W s)] |}.
-
-Definition init : bs := {| writer := fun _ => None; readers := fun _ => []; out := [] |}.
-Definition build (p : list st) : bs := fold_left add p init.
+From Dagrt Require Import BuilderCore.
 
 Definition edge (o : list (list nat)) (i j : nat) : Prop := In i (nth j o []).
 Definition prec (o : list (list nat)) : nat -> nat -> Prop := clos_trans nat (edge o).
@@ -37,28 +18,39 @@ Proof. induction 1; [apply t_step, edge_mono; assumption | eapply t_trans; eassu
 Lemma edge_new o d i : In i d -> edge (o ++ [d]) i (length o).
 Proof. intros H. unfold edge. rewrite app_nth2 by lia. rewrite Nat.sub_diag. exact H. Qed.
 
-Definition conflict (a b : st) : Prop :=
+
+Section Inv.
+  Variable V : Type.
+  Variable V_eq_dec : forall a b : V, {a = b} + {a <> b}.
+  Notation memb := (memb V V_eq_dec).
+
+  Lemma memb_true v l : memb v l = true <-> In v l.
+  Proof. unfold BuilderCore.memb. destruct (in_dec _ _ _); split; intros; auto; discriminate. Qed.
+  Lemma memb_false v l : memb v l = false <-> ~ In v l.
+  Proof. unfold BuilderCore.memb. destruct (in_dec _ _ _); split; intros; auto; try discriminate; contradiction. Qed.
+
+Definition conflict (a b : rw V) : Prop :=
   (exists v, In v (W a) /\ (In v (R b) \/ In v (W b))) \/ (exists v, In v (R a) /\ In v (W b)).
 
-Definition Inv (p : list st) (b : bs) : Prop :=
+Definition Inv (p : list (rw V)) (b : bs V) : Prop :=
   length (out b) = length p /\
   forall i s v, nth_error p i = Some s ->
     (In v (W s) -> exists w, writer b v = Some w /\ (i = w \/ prec (out b) i w)) /\
     (In v (R s) -> ~ In v (W s) -> In i (readers b v) \/ exists w, writer b v = Some w /\ prec (out b) i w).
 
-Definition Covered (p : list st) (b : bs) : Prop :=
+Definition Covered (p : list (rw V)) (b : bs V) : Prop :=
   forall i j si sj, i < j -> nth_error p i = Some si -> nth_error p j = Some sj ->
     conflict si sj -> prec (out b) i j.
 
-Lemma in_wdeps b vs v w : In v vs -> writer b v = Some w -> In w (wdeps b vs).
+Lemma in_wdeps (b : bs V) vs v w : In v vs -> writer b v = Some w -> In w (wdeps V b vs).
 Proof. intros Hv Hw. unfold wdeps. apply in_flat_map. exists v. split; [assumption|]. rewrite Hw. now left. Qed.
 
-Lemma step_ok p b s : Inv p b -> Covered p b -> Inv (p ++ [s]) (add b s) /\ Covered (p ++ [s]) (add b s).
+Lemma step_ok p b s : Inv p b -> Covered p b -> Inv (p ++ [s]) (add V V_eq_dec b s) /\ Covered (p ++ [s]) (add V V_eq_dec b s).
 Proof.
   intros [Hlen HI] HC.
   set (n := length (out b)).
-  set (d := wdeps b (R s ++ W s) ++ flat_map (readers b) (W s)).
-  assert (Hout : out (add b s) = out b ++ [d]) by reflexivity.
+  set (d := wdeps V b (R s ++ W s) ++ flat_map (readers b) (W s)).
+  assert (Hout : out (add V V_eq_dec b s) = out b ++ [d]) by reflexivity.
   (* key: any earlier statement conflicting with s precedes n *)
   assert (Key : forall i si, nth_error p i = Some si -> conflict si s -> prec (out b ++ [d]) i n).
   { intros i si Hi [[v [Hw Hrw]] | [v [Hr Hw]]].
@@ -69,7 +61,7 @@ Proof.
       destruct Hiw as [->|Hp].
       + apply t_step. apply edge_new. exact Hwd.
       + eapply t_trans; [apply prec_mono; exact Hp|]. apply t_step, edge_new, Hwd.
-    - destruct (in_dec Nat.eq_dec v (W si)) as [Hwi|Hnw].
+    - destruct (in_dec V_eq_dec v (W si)) as [Hwi|Hnw].
       + destruct (HI i si v Hi) as [HW _]. destruct (HW Hwi) as (w & Ew & Hiw).
         assert (Hwd : In w d).
         { unfold d. apply in_or_app. left. eapply in_wdeps; [|exact Ew]. apply in_or_app. now right. }
@@ -122,13 +114,13 @@ Proof.
       rewrite nth_error_app1 in Hi by lia. rewrite <- Hlen. apply (Key i si Hi Hc).
 Qed.
 
-Theorem builder_covers : forall p, Inv p (build p) /\ Covered p (build p).
+Theorem builder_covers : forall p, Inv p (build V V_eq_dec p) /\ Covered p (build V V_eq_dec p).
 Proof.
   induction p as [|s p IH] using rev_ind.
   - split; [split; [reflexivity|]|].
     + intros i s v Hi. destruct i; discriminate.
     + intros i j si sj _ Hi. destruct i; discriminate.
-  - unfold build. rewrite fold_left_app. cbn [fold_left]. fold (build p).
+  - unfold build. rewrite fold_left_app. cbn [fold_left]. fold (build V V_eq_dec p).
     destruct IH. apply step_ok; assumption.
 Qed.
-Print Assumptions builder_covers.
+End Inv.
